@@ -34,7 +34,16 @@ func New(r *rand.Rand, isTyped func(int) bool) *G {
 	return &G{R: r, IsTyped: isTyped, Budget: 60, Hits: map[int]int{}}
 }
 
-func (g *G) bytes(n int) []byte { return gen4.Bytes(g.R, n) }
+func (g *G) bytes(n int) []byte {
+	b := gen4.Bytes(g.R, n)
+	if n >= 2 && g.R.IntN(8) == 0 { // byte strings that end in one or two NUL octets (senders written in C)
+		b[n-1] = 0
+		if g.R.IntN(2) == 0 {
+			b[n-2] = 0
+		}
+	}
+	return b
+}
 
 func (g *G) smallLen() int {
 	switch g.R.IntN(12) {
@@ -195,6 +204,15 @@ func hexes(l [][]byte) []string {
 	return out
 }
 
+// enterprise draws an IANA enterprise number: any 32-bit value, and the ones that are actually seen on the wire
+// (vendor-specific formats hang off an exact number).
+func (g *G) enterprise() uint32 {
+	if g.R.IntN(2) == 0 {
+		return []uint32{9, 4491, 311, 2636, 30065, 1271, 42623, 33049, 25506, 3561, 2011, 0, 0xffffffff, 1, 4413, 6321}[g.R.IntN(16)]
+	}
+	return g.R.Uint32()
+}
+
 // hwAddr draws a hardware type and a link-layer address: any 16-bit type and any length, and the pairs that exist
 // (Ethernet 6, EUI-64 8, InfiniBand 20 octets, IEEE 1394 8, ...).
 func (g *G) hwAddr(maxLen int) (uint16, []byte) {
@@ -216,7 +234,7 @@ func (g *G) DUID() (dhcpv6.DUID, *tree.Node) {
 		hw, ll := g.hwAddr(122)
 		return &dhcpv6.DUIDLLT{HWType: iana.HWType(hw), Time: t, LinkLayerAddr: ll}, tree.N("duid-llt").U("hw", uint64(hw)).U("time", uint64(t)).B("ll", ll)
 	case 1:
-		en, id := g.R.Uint32(), g.bytes(g.boundLen(124))
+		en, id := g.enterprise(), g.bytes(g.boundLen(124))
 		return &dhcpv6.DUIDEN{EnterpriseNumber: en, EnterpriseIdentifier: id}, tree.N("duid-en").U("en", uint64(en)).B("id", id)
 	case 2:
 		hw, ll := g.hwAddr(126)
@@ -402,20 +420,23 @@ func (g *G) Option(code int, depth int) (dhcpv6.Option, *tree.Node) {
 		}
 		return &dhcpv6.OptUserClass{UserClasses: items}, tree.N("userclass").L("items", hexes(items))
 	case 16:
-		en := R.Uint32()
+		en := g.enterprise()
 		var items [][]byte
 		for i := 0; i < 1+R.IntN(4); i++ {
 			items = append(items, g.bytes(g.smallLen()))
 		}
 		return &dhcpv6.OptVendorClass{EnterpriseNumber: en, Data: items}, tree.N("vendorclass").U("en", uint64(en)).L("items", hexes(items))
 	case 17:
-		en := R.Uint32()
+		en := g.enterprise()
 		o := &dhcpv6.OptVendorOpts{EnterpriseNumber: en}
 		t := tree.N("vendoropts").U("en", uint64(en))
 		for i := 0; i < R.IntN(5); i++ {
 			c := R.IntN(65536)
-			if R.IntN(2) == 0 { // a sub-option number that is also the number of a DHCPv6 option (separate code spaces)
+			switch R.IntN(3) {
+			case 0: // a sub-option number that is also the number of a DHCPv6 option (separate code spaces)
 				c = AllCodes[R.IntN(len(AllCodes))]
+			case 1: // vendor formats number their sub-options from 1
+				c = 1 + R.IntN(48)
 			}
 			d := g.bytes(g.smallLen())
 			o.VendorOpts = append(o.VendorOpts, &dhcpv6.OptionGeneric{OptionCode: dhcpv6.OptionCode(c), OptionData: d})
@@ -447,7 +468,7 @@ func (g *G) Option(code int, depth int) (dhcpv6.Option, *tree.Node) {
 		d, s := g.secs()
 		return dhcpv6.OptInformationRefreshTime(d), tree.N("refresh").U("secs", s)
 	case 37:
-		en, id := R.Uint32(), g.bytes(g.smallLen())
+		en, id := g.enterprise(), g.bytes(g.smallLen())
 		return &dhcpv6.OptRemoteID{EnterpriseNumber: en, RemoteID: id}, tree.N("remoteid").U("en", uint64(en)).B("id", id)
 	case 39:
 		fl := uint8(R.UintN(256))
